@@ -697,6 +697,9 @@ fn test_cbrt() {
 
 // TODO: fix coeffs
 pub fn exp2(d: P32E2) -> P32E2 {
+    if d.is_nar() {
+        return NAR;
+    }
     let q = d.round();
 
     let s = d - q;
@@ -735,6 +738,9 @@ fn test_exp2() {
 
 // TODO: fix coeffs
 pub fn exp10(d: P32E2) -> P32E2 {
+    if d.is_nar() {
+        return NAR;
+    }
     let q = (d * P32E2::LOG10_2).round();
 
     let mut quire = Q32E2::init();
@@ -793,6 +799,9 @@ fn test_exp10() {
 ///
 /// This function returns the value of *e* raised to ***a***.
 pub fn exp(d: P32E2) -> P32E2 {
+    if d.is_nar() {
+        return NAR;
+    }
     let qf = (d * R_LN2).round();
     let q = i32::from(qf);
 
